@@ -3,6 +3,7 @@
 package chain
 
 import (
+	"bytes"
 	"github.com/piotrnar/gocoin/lib/btc"
 	"github.com/piotrnar/gocoin/lib/others/zzverif"
 	"github.com/piotrnar/gocoin/lib/script"
@@ -339,44 +340,56 @@ func H_C04_BIP68() {
 	}
 }
 
-// C04: the block signature-operation cost limit. The per-script counters are replaced by arbitrary values (they
-// are decided against Core's by H_C04_SigOpCount*); a connected block has 4*legacy + 4*P2SH + witness <= 80000,
+// C04: the block signature-operation cost limit. The per-script counters are replaced by arbitrary values per script
+// (they are decided against Core's by H_C04_SigOpCount*); every script of the block has its own tag byte, so the
+// expected cost is computed from the block, not from the calls made: a connected block has
+// 4*legacy(all scriptSigs and output scripts of all transactions, coinbase included) + 4*P2SH + witness <= 80000,
 // and a block refused for no other reason exceeds it.
 func H_C04_SigOpLimit() {
 	zzverif.IntMode()
 	const height = 840000
-	zzverif.Bound("block shape", "coinbase + 1 transaction with 1 input (confirmed P2SH output) and 1 output; counters arbitrary in 0..30000 per script")
-	zzverif.Stub("btc.GetSigOpCount, btc.GetP2SHSigOpCount, (*btc.Tx).CountWitnessSigOps return arbitrary counts")
-	if !zzverif.Symbolic() {
-		return // the counters cannot be replaced natively
-	}
+	zzverif.Bound("block shape", "coinbase + 1 transaction with 1 input (confirmed P2SH output, push-only scriptSig) and 1 output; counters arbitrary in 0..30000 per script")
+	zzverif.Stub("btc.GetSigOpCount, btc.GetP2SHSigOpCount return arbitrary counts that depend on the script only (natively: scripts of that many OP_CHECKSIG); no witness sigops")
 	pid := h_id(0xA1)
 	p2sh := append(append([]byte{0xa9, 0x14}, make([]byte, 20)...), 0x87)
 	ch := new(Chain)
 	ch.Unspent = new(utxo.UnspentDB)
 	ch.Unspent.UnwindBufLen = 2560
-	zzverif.Replace("(*utxo.UnspentDB).UnspentGet", func(db *utxo.UnspentDB, po *btc.TxPrevOut) *btc.TxOut {
-		if po.Hash != pid || po.Vout != 0 {
-			return nil
+	// one arbitrary legacy count per script: coinbase scriptSig, coinbase output, the transaction's output; the
+	// transaction's scriptSig is push-only (legacy count 0) and carries the redeem script with its own count
+	cbSig, cbOut, txOut := zzverif.Range64("legacy-count", 99), zzverif.Range64("legacy-count", 30001), zzverif.Range64("legacy-count", 30001) // a coinbase script has 2..100 bytes
+	p2shCount := zzverif.Range64("p2sh-count", 30001)
+	scripts := [][]byte{{1, 0}, {0x51, 1}, {1, 2}, {0x51, 3}} // cb scriptSig, cb output, tx scriptSig, tx output (told apart by the 2nd byte)
+	if zzverif.Symbolic() {
+		zzverif.Replace("(*utxo.UnspentDB).UnspentGet", func(db *utxo.UnspentDB, po *btc.TxPrevOut) *btc.TxOut {
+			if po.Hash != pid || po.Vout != 0 {
+				return nil
+			}
+			return &btc.TxOut{Value: 1000, BlockHeight: 1000, VoutCount: 1, Pk_script: p2sh}
+		})
+		legacyOf := []uint64{cbSig, cbOut, 0, txOut}
+		zzverif.Replace("btc.GetSigOpCount", func(scr []byte, acc bool) uint { return uint(legacyOf[scr[1]&3]) })
+		zzverif.Replace("btc.GetP2SHSigOpCount", func(scr []byte) uint { return uint(p2shCount) })
+	} else {
+		// native realiser: scripts with that many OP_CHECKSIG
+		sigops := func(n uint64) []byte { return bytes.Repeat([]byte{0xac}, int(n)) }
+		scripts[0], scripts[1], scripts[3] = append([]byte{0x51, 0x51}, sigops(cbSig)...), sigops(cbOut), sigops(txOut)
+		redeem := sigops(p2shCount)
+		switch {
+		case len(redeem) == 0:
+			scripts[2] = []byte{0x00}
+		case len(redeem) < 76:
+			scripts[2] = append([]byte{byte(len(redeem))}, redeem...)
+		case len(redeem) < 256:
+			scripts[2] = append([]byte{0x4c, byte(len(redeem))}, redeem...)
+		default:
+			scripts[2] = append([]byte{0x4d, byte(len(redeem)), byte(len(redeem) >> 8)}, redeem...)
 		}
-		return &btc.TxOut{Value: 1000, BlockHeight: 1000, VoutCount: 1, Pk_script: p2sh}
-	})
-	var legacy, p2shn, wit uint64
-	zzverif.Replace("btc.GetSigOpCount", func(scr []byte, acc bool) uint {
-		v := zzverif.Range64("legacy-count", 30001)
-		legacy += v
-		return uint(v)
-	})
-	zzverif.Replace("btc.GetP2SHSigOpCount", func(scr []byte) uint {
-		v := zzverif.Range64("p2sh-count", 30001)
-		p2shn += v
-		return uint(v)
-	})
-	zzverif.Replace("(*btc.Tx).CountWitnessSigOps", func(tx *btc.Tx, inp int, spk []byte) uint {
-		v := zzverif.Range64("witness-count", 30001)
-		wit += v
-		return uint(v)
-	})
+		rec := &utxo.UtxoRec{TxID: pid, InBlock: 1000, Outs: []*utxo.UtxoTxOut{{Value: 1000, PKScr: p2sh}}}
+		var k utxo.UtxoKeyType
+		copy(k[:], pid[:])
+		ch.Unspent.HashMap[k[0]] = map[utxo.UtxoKeyType]*[]byte{k: utxo.SerializeU(rec, nil)}
+	}
 	script.HookVerifyTxScript = func(pk []byte, c *script.SigChecker, flags uint32) bool { return true }
 	defer func() { script.HookVerifyTxScript = nil }()
 	bl := new(btc.Block)
@@ -384,17 +397,17 @@ func H_C04_SigOpLimit() {
 	bl.VerifyFlags = script.VER_P2SH | script.VER_WITNESS
 	cb := new(btc.Tx)
 	cb.Hash.Hash = h_id(0xC0)
-	cb.TxIn = []*btc.TxIn{{Input: btc.TxPrevOut{Vout: 0xffffffff}, ScriptSig: []byte{1, 1}}}
-	cb.TxOut = []*btc.TxOut{{Value: 0, Pk_script: []byte{0x51}, WasCoinbase: true}}
+	cb.TxIn = []*btc.TxIn{{Input: btc.TxPrevOut{Vout: 0xffffffff}, ScriptSig: scripts[0]}}
+	cb.TxOut = []*btc.TxOut{{Value: 0, Pk_script: scripts[1], WasCoinbase: true}}
 	tx := new(btc.Tx)
 	tx.Hash.Hash = h_id(0xD1)
 	tx.Version = 1
-	tx.TxIn = []*btc.TxIn{{Input: btc.TxPrevOut{Hash: pid, Vout: 0}, ScriptSig: []byte{1, 0x51}, Sequence: 0xffffffff}}
-	tx.TxOut = []*btc.TxOut{{Value: 0, Pk_script: []byte{0x51}}}
+	tx.TxIn = []*btc.TxIn{{Input: btc.TxPrevOut{Hash: pid, Vout: 0}, ScriptSig: scripts[2], Sequence: 0xffffffff}}
+	tx.TxOut = []*btc.TxOut{{Value: 0, Pk_script: scripts[3]}}
 	bl.Txs = []*btc.Tx{cb, tx}
 	bl.TotalInputs = 1
 	_, cost, e := ch.ProcessBlockTransactions(bl, height, height)
-	total := 4*legacy + 4*p2shn + wit
+	total := 4*(cbSig+cbOut+txOut) + 4*p2shCount
 	if e != nil {
 		zzverif.Reach("refused")
 		zzverif.Assert("C04.sigops.refused-only-above-limit", total > 80000)
